@@ -1,123 +1,11 @@
 ------------------------------ MODULE DiscoveryI ------------------------------
-(* C15 - implementation-shaped specification of the discovery aggregation:      *)
-(*   discovery/runner.go       Run / GetUpdatedAggregations (one Batch action)  *)
-(*   discovery/aggregation_converge.go  ConvergeAggregation (re-keying)         *)
-(*   discovery/aggregation.go  ExtractAggs / extractEndpointAgg                 *)
-(*   shared-model/discovery/combine.go  EndpointAgg.Combine (weighted average)  *)
-(*   discovery/state.go + persistence_utils.go  UpdateAggregation (file) /      *)
-(*                              InitializeState (Restart), timestamps persisted *)
-(*                              with a resolution of one second                 *)
-(*   toolkit-core/urltree       abstracted to what matters for attribution: per *)
-(*                              group of sibling URLs the set of constant       *)
-(*                              children and whether the group has converged    *)
-(*                              into an inferred path parameter (threshold)     *)
-(* Averages are kept in 1/1000 with flooring division (the code keeps float32). *)
-(* Flags: Unweighted / NoStatusMerge / ConvergeOverwrite are breaking variants  *)
-(* that TLC must refute (non-vacuity).                                          *)
-EXTENDS DiscoveryP, SequencesExt, TLC
+(* C15 - implementation-shaped specification, behaviour part: the operators of   *)
+(* DiscoveryOps (one discovery.Run = BatchStep, persistence = Persisted) driven  *)
+(* by every batch over the alphabet and by restarts; the laws of DiscoveryP as   *)
+(* invariants of every reachable state.                                          *)
+EXTENDS DiscoveryOps
 
-CONSTANTS Letters,        \* sequence of record templates [m, u, s, d, t, c, ity, iver, internal]
-          TsPattern,      \* timestamp of the k-th record of a stream
-          URLs, GroupOf, NormName,   \* URL structure: group of siblings of a URL, name of the converged group
-          Threshold,      \* urltree maxSplitThreshold
-          MaxLen, MaxBatch, MaxRestarts,
-          Unweighted, NoStatusMerge, ConvergeOverwrite
-
-Groups == {GroupOf[u] : u \in URLs}
-
-\* ------------------------------------------------------------------------------------------------ URL tree
-EmptyTree == [consts |-> [g \in Groups |-> {}], conv |-> [g \in Groups |-> FALSE]]
-
-\* InsertWithConvergenceIndication: <<tree', convergence occurred>>
-Insert1(tr, u) ==
-    LET g == GroupOf[u] IN
-    IF u \in tr.consts[g] THEN <<tr, FALSE>>
-    ELSE IF Cardinality(tr.consts[g]) >= Threshold
-         THEN <<[tr EXCEPT !.consts[g] = {}, !.conv[g] = TRUE], TRUE>>
-    ELSE IF tr.conv[g] THEN <<tr, FALSE>>
-    ELSE <<[tr EXCEPT !.consts[g] = @ \cup {u}], FALSE>>
-
-\* NormalizeURL (insert, then lookup) for a URL or an already normalised key
-Norm(tr, k) ==
-    IF k \notin URLs THEN k
-    ELSE IF k \in tr.consts[GroupOf[k]] THEN k
-    ELSE IF tr.conv[GroupOf[k]] THEN NormName[GroupOf[k]] ELSE k
-
-AttrSet(tr) == {[u |-> u, n |-> Norm(tr, u)] : u \in URLs}
-
-\* ------------------------------------------------------------------------------------------------ aggregates
-EmptyAgg == [eps |-> {}, cons |-> {}, ics |-> {}]
-
-NOf(st, c) == LET P == {p \in st : p.code = c} IN IF P = {} THEN 0 ELSE (CHOOSE p \in P : TRUE).n
-
-\* EndpointAgg.Combine (a and b carry the same key fields)
-CombineEntry(a, b) ==
-    LET cnt == a.count + b.count IN
-    [a EXCEPT
-       !.count = cnt,
-       !.st = IF NoStatusMerge THEN b.st \cup {p \in a.st : NOf(b.st, p.code) = 0}
-              ELSE {[code |-> c, n |-> NOf(a.st, c) + NOf(b.st, c)] : c \in {p.code : p \in a.st \cup b.st}},
-       !.min = IF a.min < b.min THEN a.min ELSE b.min,
-       !.max = IF a.max > b.max THEN a.max ELSE b.max,
-       !.ad = IF Unweighted THEN (a.ad + b.ad) \div 2 ELSE (a.ad * a.count + b.ad * b.count) \div cnt,
-       !.at = IF Unweighted THEN (a.at + b.at) \div 2 ELSE (a.at * a.count + b.at * b.count) \div cnt]
-
-\* utils.Map.Combine over entries keyed by K(_)
-CombineSet(A, B, K(_)) ==
-    {a \in A : ~\E b \in B : K(b) = K(a)} \cup {b \in B : ~\E a \in A : K(a) = K(b)}
-    \cup {CombineEntry(a, CHOOSE b \in B : K(b) = K(a)) : a \in {x \in A : \E b \in B : K(b) = K(x)}}
-
-EK(e) == <<e.m, e.u>>
-CK(e) == <<e.c, e.m, e.u>>
-
-\* extractEndpointAgg for the records (indices I of the batch b) of one key
-ExtractEntry(b, I, base) ==
-    LET n == Cardinality(I) IN
-    [base EXCEPT
-       !.count = n,
-       !.st = {[code |-> c, n |-> Cardinality({i \in I : b[i].s = c})] : c \in {b[i].s : i \in I}},
-       !.min = Min({b[i].ts : i \in I}), !.max = Max({b[i].ts : i \in I}),
-       !.ad = (1000 * MapThenSumSet(LAMBDA i : b[i].d, I)) \div n,
-       !.at = (1000 * MapThenSumSet(LAMBDA i : b[i].t, I)) \div n]
-
-Blank == [count |-> 0, st |-> {}, min |-> 0, max |-> 0, ad |-> 0, at |-> 0]
-
-ExtractAggs(tr, b) ==
-    LET D == DOMAIN b IN
-    [eps |-> {ExtractEntry(b, {i \in D : <<b[i].m, Norm(tr, b[i].u)>> = k}, [m |-> k[1], u |-> k[2]] @@ Blank)
-                : k \in {<<b[i].m, Norm(tr, b[i].u)>> : i \in D}},
-     cons |-> {ExtractEntry(b, {i \in D : <<Tag(b[i]), b[i].m, Norm(tr, b[i].u)>> = k}, [c |-> k[1], m |-> k[2], u |-> k[3]] @@ Blank)
-                : k \in {<<Tag(b[i]), b[i].m, Norm(tr, b[i].u)>> : i \in D}},
-     ics |-> {[ty |-> k[1], ver |-> k[2], ts |-> Max({b[i].ts : i \in {j \in D : <<IcTy(b[j]), IcVer(b[j])>> = k}})]
-                : k \in {<<IcTy(b[i]), IcVer(b[i])>> : i \in D}}]
-
-\* ConvergeAggregation: re-key the existing entries under the converged tree, combining the ones that now share a key
-Rekey(tr, E, K(_)) ==
-    LET R(e) == [e EXCEPT !.u = Norm(tr, e.u)]
-        Ks == {K(R(e)) : e \in E}
-        Merge(S) == LET e0 == CHOOSE e \in S : TRUE IN
-                    IF ConvergeOverwrite THEN R(e0)
-                    ELSE FoldSet(LAMBDA e, acc : CombineEntry(acc, R(e)), R(e0), S \ {e0})
-    IN  {Merge({e \in E : K(R(e)) = k}) : k \in Ks}
-
-CombineIcs(A, B) ==
-    {a \in A : ~\E b \in B : b.ty = a.ty /\ b.ver = a.ver} \cup {b \in B : ~\E a \in A : b.ty = a.ty /\ b.ver = a.ver}
-    \cup {[a EXCEPT !.ts = LET b == CHOOSE b \in B : b.ty = a.ty /\ b.ver = a.ver IN IF a.ts > b.ts THEN a.ts ELSE b.ts]
-            : a \in {x \in A : \E b \in B : b.ty = x.ty /\ b.ver = x.ver}}
-
-\* discovery.Run on one batch of records: <<tree', agg'>>
-BatchStep(tr, agg, recs) ==
-    LET live == SelectSeq(recs, LAMBDA r : ~r.internal)
-        ins == FoldLeft(LAMBDA acc, r : LET x == Insert1(acc[1], r.u) IN <<x[1], acc[2] \/ x[2]>>, <<tr, FALSE>>, live)
-        tr2 == ins[1]
-        agg1 == IF ins[2] THEN [eps |-> Rekey(tr2, agg.eps, EK), cons |-> Rekey(tr2, agg.cons, CK), ics |-> agg.ics] ELSE agg
-        new == ExtractAggs(tr2, live)
-    IN  <<tr2, [eps |-> CombineSet(agg1.eps, new.eps, EK), cons |-> CombineSet(agg1.cons, new.cons, CK), ics |-> CombineIcs(agg1.ics, new.ics)]>>
-
-\* ConvertToPersisted / ConvertFromPersisted: timestamps survive with a resolution of one second
-PersistEntry(e) == [e EXCEPT !.min = FloorSec(e.min), !.max = FloorSec(e.max)]
-Persisted(agg) == [eps |-> {PersistEntry(e) : e \in agg.eps}, cons |-> {PersistEntry(e) : e \in agg.cons},
-                   ics |-> {[x EXCEPT !.ts = FloorSec(x.ts)] : x \in agg.ics}]
+CONSTANTS MaxLen, MaxBatch, MaxRestarts
 
 \* ------------------------------------------------------------------------------------------------ behaviour
 VARIABLES tree, agg, file, hist, through, restarts, rt
